@@ -1221,6 +1221,7 @@ class Interp:
             except ContinueSig:
                 pass
             except BreakSig:
+                fr.locals['__loop_ghost__'] = g
                 return            # continue after the loop with the state at the break
             if getattr(spec, 'update', None):
                 spec.update(self, pre_env, env, g)          # ghost code executed at the end of every iteration
